@@ -21,10 +21,15 @@ type hostCfg struct {
 	Verify   bool   `json:"verify_incoming"`
 	Compress bool   `json:"compress"`
 	Skip     bool   `json:"skip_inbound_label_check"` // an outer layer strips the header: traffic arrives without one
+	Late     bool   `json:"keys_installed_at_run_time"` // the node is created with an empty keyring; the keys are installed afterwards
 }
 
 func (c hostCfg) String() string {
-	return fmt.Sprintf("label=%q enc=%d verify=%v comp=%v skip=%v", c.Label, c.EncVsn, c.Verify, c.Compress, c.Skip)
+	s := fmt.Sprintf("label=%q enc=%d verify=%v comp=%v skip=%v", c.Label, c.EncVsn, c.Verify, c.Compress, c.Skip)
+	if c.Late {
+		s += " late-keys"
+	}
+	return s
 }
 
 type victim struct {
@@ -33,6 +38,9 @@ type victim struct {
 	x, y *FakePeer
 	k1   []byte
 	k2   []byte
+	// stream transmissions sent in two parts with something happening at the receiver in between
+	splitAt   int
+	midStream func()
 }
 
 func newVictim(seed int64, cfg hostCfg, mut func(cf *memberlist.Config)) (*victim, error) {
@@ -45,15 +53,22 @@ func newVictim(seed int64, cfg hostCfg, mut func(cf *memberlist.Config)) (*victi
 			pver = 1
 		}
 	}
-	rig, err := NewRig(RigOpts{Seed: seed, Label: cfg.Label, Key: key, Compress: cfg.Compress, PVer: pver, Spec: NodeSpec{Name: "V", IP: "10.9.9.9", WithPing: true, Mutate: func(cf *memberlist.Config) {
+	rigKey := key
+	if cfg.Late {
+		rigKey = nil
+	}
+	rig, err := NewRig(RigOpts{Seed: seed, Label: cfg.Label, Key: rigKey, Compress: cfg.Compress, PVer: pver, Spec: NodeSpec{Name: "V", IP: "10.9.9.9", WithPing: true, Mutate: func(cf *memberlist.Config) {
 		cf.ProbeInterval = noProbe
 		cf.PushPullInterval = 0
 		cf.GossipInterval = 0
 		cf.GossipVerifyIncoming = cfg.Verify
 		cf.SkipInboundLabelCheck = cfg.Skip
 		cf.TCPTimeout = 2 * time.Second
-		if cfg.EncVsn >= 0 {
+		if cfg.EncVsn >= 0 && !cfg.Late {
 			_ = cf.Keyring.AddKey(v.k2)
+		}
+		if cfg.EncVsn >= 0 && cfg.Late {
+			cf.Keyring, _ = memberlist.NewKeyring(nil, nil)
 		}
 		if mut != nil {
 			mut(cf)
@@ -64,6 +79,20 @@ func newVictim(seed int64, cfg hostCfg, mut func(cf *memberlist.Config)) (*victi
 	}
 	v.rig = rig
 	rig.NoHeader = cfg.Skip
+	if cfg.EncVsn >= 0 && cfg.Late {
+		// encryption is switched on while the node runs
+		ring := rig.V.Conf.Keyring
+		if err := ring.AddKey(v.k1); err != nil {
+			return nil, err
+		}
+		if err := ring.AddKey(v.k2); err != nil {
+			return nil, err
+		}
+		if err := ring.UseKey(v.k1); err != nil {
+			return nil, err
+		}
+		rig.PCfg.Key, rig.SCfg.Key = v.k1, v.k1
+	}
 	if cfg.EncVsn >= 0 {
 		rig.Keys = [][]byte{v.k1, v.k2}
 	}
